@@ -136,6 +136,7 @@ def assignments(rows, rng):
     nr = len(rows); lens = [len(r) for r in rows]
     A = [("a[...]=scalar? (a[:]=5)", slice(None), 5), ("a[1:]=6", slice(1, None), 6), ("a[:,1:]=7", (slice(None), slice(1, None)), 7), ("a[::-1, ::2]=8", (slice(None, None, -1), slice(None, None, 2)), 8)]
     if nr:
+        A += [("a[1:2]=12", slice(1, 2), 12), ("a[[-1]]=13", [-1], 13), ("a[-1:, ::2]=14", (slice(-1, None), slice(None, None, 2)), 14), ("a[:1]=15", slice(None, 1), 15)]
         A += [("a[0]=9", 0, 9), ("a[-1]=9", -1, 9), ("a[[0]]=column", [0], "column"), ("a[:]=ragged", slice(None), "ragged"), ("a[:]=column", slice(None), "column"),
               ("a[mask]=3", "mask", 3)]
         if lens[0]: A += [("a[0,0]=11", (0, 0), 11), ("a[0]=flat", 0, "flat")]
@@ -143,7 +144,7 @@ def assignments(rows, rng):
     return A
 
 
-def run_programs(R, tier, rng):
+def run_programs(R, tier, rng, observe=True, assign=True):
     import numpy as np
     from npstructures import RaggedArray
     from harness.fam_ra2 import kl
@@ -165,8 +166,11 @@ def run_programs(R, tier, rng):
                     except Exception: continue
                     chains.append([l1, l2, rng.choice(p_lazies(len(r2)))])
         for chain in chains:
+            touched = (len(chain) + len(B) + n_prog) % 2 == 1          # every other program derives from a source that was read before
             def derive(src=None):
                 a = RaggedArray(B, dtype=int) if src is None else src
+                if touched:                                            # size / reductions / printing evaluated on the source first (caches, materialisation)
+                    a.size; np.cumsum(a, axis=-1); str(a); a.sum(axis=-1)
                 for l in chain: a = a[to_py(l)]
                 return a
             try:
@@ -175,14 +179,14 @@ def run_programs(R, tier, rng):
             except Exception:
                 continue
             cname = "prog " + show(B) + " " + " ".join(show(enc_index(l)) for l in chain)
-            pyname = f"d = RaggedArray({B})" + "".join(f"[{l!r}]" for l in chain)
+            pyname = f"s = RaggedArray({B}); " + ("s.size; np.cumsum(s, axis=-1); str(s); s.sum(axis=-1); " if touched else "") + "d = s" + "".join(f"[{l!r}]" for l in chain)
             nt = len(rows) >= 2
-            for name, f in observations(rows):
+            for name, f in (observations(rows) if observe else []):
                 n_prog += 1
                 impl = guarded(lambda: f(derive())); ref = guarded(lambda: f(RaggedArray(rows, dtype=int)))
                 R.record(cname + " :: " + name, impl, ref, ref, nt, "observe/" + name.split("(")[0].split("[")[0][:14], py=pyname + f";  {name}  vs the same on RaggedArray({rows})")
             # assignments into the derived array: it changes like a fresh array, its source does not change
-            for name, idx, v in assignments(rows, rng):
+            for name, idx, v in (assignments(rows, rng) if assign else []):
                 def do(a, parent=None):
                     lens = [len(r) for r in rows]
                     ix = idx
